@@ -9,6 +9,24 @@ for l in open('/verif/properties.jsonl'):
         break
 wt = "/tmp/mut/%s" % pid
 out = "/tmp/mutout/%s" % pid
+# changes other engineers already produced for this property (so that new ones are different); these come from earlier
+# sub-agents, not from the verification machinery
+import glob, os
+prev = []
+for d in sorted(glob.glob("/verif/seeded/%s-*" % pid)):
+    diff = os.path.join(d, "patch.diff")
+    if os.path.exists(diff):
+        files = sorted(set(l[6:].strip() for l in open(diff) if l.startswith("+++ b/")))
+        notes = os.path.join(d, "notes.md")
+        first = ""
+        if os.path.exists(notes):
+            txt = [l.strip() for l in open(notes) if l.strip() and not l.startswith("#")]
+            first = " ".join(txt[:2])[:300]
+        prev.append("  - in %s: %s" % (", ".join(files), first))
+start = int(sys.argv[3]) if len(sys.argv) > 3 else 1
+avoid = ""
+if prev:
+    avoid = "\nOther engineers have already produced these changes for this property; yours must be clearly different (other functions, other mechanisms, other triggers):\n" + "\n".join(prev) + "\n"
 print(f"""You are a software engineer helping to evaluate a verification tool by seeding realistic bugs.
 
 You work ONLY inside the scratch git worktree {wt} (a checkout of the ImageD11 repository: a Python/C toolkit for 3DXRD data) and write your results to {out}. Never read or write /repo or /verif, and do not commit anything.
@@ -25,9 +43,10 @@ The property of ImageD11 that the verification tool claims to check:
   Quantified over: {p['quantifier']['text']}
   Code it is anchored in: {', '.join(p['anchors']['files'])}
 
+{avoid}
 Your task: produce {n} different, realistic changes to the library source (C and/or Python under src/ or ImageD11/) that each BREAK this property while the code still compiles and the existing test suite still passes exactly as before. Think of the kind of slip a maintainer could plausibly make during a refactoring or optimisation (an off-by-one at a boundary, a reordered pair of statements, a missed case, a cache or scratch buffer that becomes shared, an update applied to all columns but one, ...). Each change must need something SPECIFIC to manifest - a particular thread interleaving, a multi-step sequence of operations, an unusual but legal input (a boundary size, a particular topology), or two cooperating sites that each look fine alone - not something that ordinary use would expose at once. Make the {n} changes as different from one another as you can (different functions / mechanisms). Small diffs are best.
 
-For each change k = 1..{n} deliver in {out}/k/ :
+For each change k = {start}..{start + n - 1} deliver in {out}/k/ :
   patch.diff   - `git diff` of the change relative to the clean worktree (apply-able with `git apply`)
   demo.py      - a small self-contained program (run as `PYTHONPATH=<tree> /venv/bin/python demo.py`) that exits 0 on the clean tree and exits non-zero (assertion failure) with the change applied, demonstrating the property violation through the public API. If the failure needs a particular thread schedule and cannot be shown deterministically, make the demo show it as reliably as you can (e.g. many repetitions / many threads) and say so.
   notes.md     - which part of the property it breaks, what exactly is needed for it to manifest, and the commands you ran.
